@@ -33,7 +33,8 @@ KNOWN_OFFSET_KEY = ("onehot: some column j with c_i < j < c_i + i behind the i-t
 
 TRACE_SPEC = ("preproc/PreprocTrace.tla", "preproc/PreprocTrace.cfg")
 MUST_HIT = ("Encode", "EncodeNonTrivial", "FitErr", "Unseen", "Unconstrained", "NegZeroPassThrough", "RowLadder",
-            "RowsDifferAcrossBlocks", "UnseenLateRow", "FitErrLateRow", "NdColumnMajor", "Mapper", "MapperUnknownProbe", "Expect")
+            "RowsDifferAcrossBlocks", "UnseenLateRow", "FitErrLateRow", "NdColumnMajor", "FitErrCancelling",
+            "UnseenOutOfCodeRange", "UnseenSaturatesToSeen", "UnseenInfinite", "Mapper", "MapperUnknownProbe", "Expect")
 
 
 def cat_counts(e):
@@ -50,9 +51,15 @@ def enc_class(e):
     return (p, tuple(cs), tuple(ks), order, e["ty"]), nontrivial
 
 
+KNOWN_SATURATION_KEY = ("onehot transform: unseen value outside 0..65535 whose saturated u16 code (0 for negative, 65535 for "
+                        "large / +inf) is a fitted category is encoded as that category instead of an error")
+
+
 def key_of(e, clause):
     if clause.endswith("@asbuilt-offset"):
         return KNOWN_OFFSET_KEY
+    if clause.endswith("@saturated-code-seen"):
+        return KNOWN_SATURATION_KEY
     if e["ev"] == "Encode":
         cs, ks = cat_counts(e)
         return "encode %s: %s n=%d p=%d cats=%s k=%s same=%s" % (clause, e["ty"], len(e["X2"]), len(e["X2"][0]), cs, ks,
